@@ -85,6 +85,8 @@ def cases(tier, seed):
         cs.append({'kind': 'filemix', 'seed': rng.randrange(1 << 30)})
     for i, bad in enumerate(['delta.example:70000', 'delta.example:0', '[2001:db8::9]:65536', 'delta.example:-5', 'delta.example:port']):
         cs.append({'kind': 'filemix', 'seed': rng.randrange(1 << 30), 'bad': bad, 'badpos': i % 3})
+    for i in range(2 if tier == 'quick' else 8):
+        cs.append({'kind': 'filemix', 'seed': rng.randrange(1 << 30), 'big': [6000, 20000, 9000, 40000][i % 4]})
     return cs
 
 
@@ -325,13 +327,21 @@ def run_filemix(c):
     try:
         tf = os.path.join(d, 't.txt')
         with open(tf, 'w', newline='') as f:
-            f.write('\n'.join((' ' + l + '  ') if i % 2 else l for i, l in enumerate(lines)) + '\n\n')
+            body = [(' ' + l + '  ') if i % 2 else l for i, l in enumerate(lines)]
+            if c.get('big'):
+                # a long file: thousands of blank and whitespace-only lines (skipped, as documented) around the entries, more than 64 K characters before the last ones
+                filler = ['', '   ', '\t', ' ' * 60]
+                body = [x for i, l in enumerate(body) for x in ([filler[(i + j) % 4] for j in range(c['big'] // len(body))] + [l])]
+                counters_big = sum(len(x) + 1 for x in body)
+            f.write('\n'.join(body) + '\n\n')
         r = runner.run_cli(['--skip-rate-test', '-n', '-T', tf, '--threads', str(rng.choice([1, 3]))] + (['-p', str(defport)] if defport != 22 else []), monitors=['resolver'], spec=spec, cwd=d, timeout=90)
     finally:
         p4.stop(0.3)
         p6.stop(0.3)
         runner.cleanup(d)
     viol, counters = [], {'invocations': 1, 'targets_file_runs': 1}
+    if c.get('big'):
+        counters['targets_files_longer_than_64k'] = 1 if counters_big > 65536 else 0
     res = [(e['host'], e['port']) for e in (r.monitor or []) if e['k'] == 'resolve']
     counters['resolver_queries'] = len(res)
     if c.get('bad'):
